@@ -412,6 +412,10 @@ static const struct cscope quick_scopes[] = {
     { 3, 1, 4, 4, 200000, 40 },
     { 2, 1, 4, 4, 200000, 40, 1 },      /* two lists linking through different nodes of the same elements */
     { 3, 2, 3, 3, 200000, 40, 1 },
+    { 1, 2, 6, 6, 200000, 40 },
+    { 2, 2, 5, 5, 200000, 40 },
+    { 1, 3, 5, 5, 200000, 40 },
+    { 2, 2, 4, 4, 200000, 40, 1 },
 };
 static const struct cscope thorough_scopes[] = {
     { 1, 1, 6, 6, 2000000, 60 },
@@ -518,7 +522,7 @@ static void run_random(uint64_t idx)
 static uint64_t nrandom(void)
 {
     if (is_clear_mode) return vrt_thorough ? 2000 : 200;
-    return vrt_thorough ? 40000 : 3000;
+    return vrt_thorough ? 100000 : 20000;
 }
 static uint64_t ncases(void)
 {
